@@ -43,13 +43,13 @@ func (s *sim) record(cl opshell.CLine) {
 	}
 	s.recv = append(s.recv, r)
 	if r.class == "plain" {
-		s.obs("och#%d plain %dB", r.idx, len(cl.Line))
+		s.obs("och plain %dB", len(cl.Line))
 	} else {
 		id := -1
 		if r.att != nil {
 			id = r.att.id
 		}
-		s.obs("och#%d %s att=%d %q", r.idx, r.class, id, s.canon(r.rest))
+		s.obs("och %s att=%d %q", r.class, id, s.canon(r.rest))
 	}
 }
 
